@@ -99,9 +99,14 @@ func C11(tier string) {
 	// the explorer is first run on litmus programs with known verdicts, with and
 	// without state caching; a wrong verdict there disqualifies the whole check
 	{
-		stc := exec.Command(bin, "selftest")
+		sctx, scancel := context.WithTimeout(context.Background(), 20*time.Minute)
+		stc := exec.CommandContext(sctx, bin, "selftest")
 		stc.Env = append(os.Environ(), "GOMAXPROCS=2")
 		so, serr := stc.Output()
+		if sctx.Err() != nil {
+			serr = fmt.Errorf("not finished after 20 minutes")
+		}
+		scancel()
 		var st []map[string]interface{}
 		lines := strings.Split(strings.TrimSpace(string(so)), "\n")
 		if json.Unmarshal([]byte(lines[len(lines)-1]), &st) != nil || len(st) == 0 {
